@@ -6,6 +6,8 @@ mutating-method inventory of the running interpreter.
 stdin: [case...] (each with "kind": "list"|"set"|"dict"|"nested"|"ndict") -> [[obs per step] per case]
        {"mode": "mutators"} -> inventory
 """
+import copy
+import gc
 import operator
 import sys
 import os
@@ -59,8 +61,11 @@ class Rec:
         self.n += 1
 
     def attach(self, c, fn):
-        if not any(n == fn for n in c.notifiers):
-            c.notifiers.append(fn)
+        # a violating implementation may store something that is not a trait container: nothing to attach to,
+        # the contents are still recorded and judged by the law
+        ns = getattr(c, "notifiers", None)
+        if isinstance(ns, list) and not any(n == fn for n in ns):
+            ns.append(fn)
 
     def reset(self):
         self.n = 0
@@ -71,24 +76,59 @@ def exn(e):
     return dlib.exn_name(e, EXN)
 
 
+def enc_inner(x):
+    """contents of an inner list; something that is not a list at all is shown as [999] (never valid)"""
+    return [atom(v) for v in x] if isinstance(x, list) else [999]
+
+
+def loose_like(owner, how, raw_init_value, fill):
+    """A trait container of the same trait as owner.x that validates nothing any more: a deep copy (no owner) or
+    the value of an object that has been garbage collected ("orphan"); `fill` puts the raw contents into it with
+    the methods of the built-in base class, so whatever they are they get in."""
+    if how == "deepcopy":
+        c = copy.deepcopy(owner.x)
+    elif how == "orphan":
+        tmp = type(owner)()
+        tmp.x = raw_init_value
+        c = tmp.x
+        del tmp
+        gc.collect()
+    else:
+        raise ValueError(how)
+    if type(c) is not type(owner.x):
+        raise RuntimeError("no loose container of the same type")
+    fill(c)
+    return c
+
+
+def fill_list(items):
+    def f(c):
+        list.clear(c)
+        list.extend(c, items)
+    return f
+
+
 # ---------------------------------------------------------------- list
 def run_list(case):
     owner = cls_for(("list", case["vk"], case["minlen"], case["maxlen"]),
                     lambda: List(INNER[case["vk"]], **list_kw(case["minlen"], case["maxlen"])))()
-    owner.x = [raw_init(case["vk"], a) for a in case["init"]]
+    init_raw = [raw_init(case["vk"], a) for a in case["init"]]
+    owner.x = list(init_raw)
     rec = Rec()
     hist = []
     for op in case["ops"]:
         tl = owner.x
-        if type(tl) is not TraitListObject:
-            raise RuntimeError("List trait value is not a TraitListObject")
         rec.attach(tl, rec.on_list)
         rec.reset()
         out, ret = "Ok", None
         try:
             if op[0] == "Assign":
                 items = [val(a) for a in op[2]]
-                owner.x = items if op[1] else tuple(items)
+                how = op[3] if len(op) > 3 else "plain"
+                if how != "plain":
+                    owner.x = loose_like(owner, how, list(init_raw), fill_list(items))
+                else:
+                    owner.x = items if op[1] else tuple(items)
             else:
                 ret = L.apply_op(tl, op)
         except Exception as e:  # noqa
@@ -101,13 +141,12 @@ def run_list(case):
 # ---------------------------------------------------------------- set
 def run_set(case):
     owner = cls_for(("set", case["vk"]), lambda: Set(INNER[case["vk"]]))()
-    owner.x = set(raw_init(case["vk"], a) for a in case["init"])
+    init_raw = set(raw_init(case["vk"], a) for a in case["init"])
+    owner.x = set(init_raw)
     rec = Rec()
     hist = []
     for op in case["ops"]:
         ts = owner.x
-        if type(ts) is not TraitSetObject:
-            raise RuntimeError("Set trait value is not a TraitSetObject")
         rec.attach(ts, rec.on_set)
         rec.reset()
         out, ret = "Ok", None
@@ -115,7 +154,11 @@ def run_set(case):
         try:
             if k == "Assign":
                 items = [val(a) for a in op[2]]
-                owner.x = set(items) if op[1] else items
+                how = op[3] if len(op) > 3 else "plain"
+                if how != "plain":
+                    owner.x = loose_like(owner, how, set(init_raw), lambda c: (set.clear(c), set.update(c, items)))
+                else:
+                    owner.x = set(items) if op[1] else items
             elif k == "Add":
                 ts.add(val(op[1]))
             elif k == "Discard":
@@ -158,20 +201,24 @@ def pairs(ps):
 
 def run_dict(case):
     owner = cls_for(("dict", case["kk"], case["vk"]), lambda: Dict(INNER[case["kk"]], INNER[case["vk"]]))()
-    owner.x = dict((raw_init(case["kk"], k), raw_init(case["vk"], v)) for k, v in case["init"])
+    init_raw = dict((raw_init(case["kk"], k), raw_init(case["vk"], v)) for k, v in case["init"])
+    owner.x = dict(init_raw)
     rec = Rec()
     hist = []
     for op in case["ops"]:
         td = owner.x
-        if type(td) is not TraitDictObject:
-            raise RuntimeError("Dict trait value is not a TraitDictObject")
         rec.attach(td, rec.on_dict)
         rec.reset()
         out = "Ok"
         k = op[0]
         try:
             if k == "Assign":
-                owner.x = dict(pairs(op[2])) if op[1] else pairs(op[2])
+                how = op[3] if len(op) > 3 else "plain"
+                if how != "plain":
+                    ps = dict(pairs(op[2]))
+                    owner.x = loose_like(owner, how, dict(init_raw), lambda c: (dict.clear(c), dict.update(c, ps)))
+                else:
+                    owner.x = dict(pairs(op[2])) if op[1] else pairs(op[2])
             elif k == "SetItem":
                 td[val(op[1])] = val(op[2])
             elif k == "DelItem":
@@ -205,8 +252,20 @@ class NotAList:
     pass
 
 
-def raw(r):
-    return NotAList() if r is None else [val(a) for a in r]
+def raw(r, inner_src=None):
+    """r: None (not a list), a list of atoms (plain Python list), or {"loose": [...]}: an ownerless trait list of the
+    inner trait (deep copy of an existing inner list) holding these raw items"""
+    if r is None:
+        return NotAList()
+    if isinstance(r, dict):
+        items = [val(a) for a in r["loose"]]
+        if inner_src is None:
+            return items
+        c = copy.deepcopy(inner_src)
+        list.clear(c)
+        list.extend(c, items)
+        return c
+    return [val(a) for a in r]
 
 
 def run_nested(case):
@@ -214,30 +273,30 @@ def run_nested(case):
     omn, omx = case["ob"]
     owner = cls_for(("nested", case["vk"], imn, imx, omn, omx),
                     lambda: List(List(INNER[case["vk"]], **list_kw(imn, imx)), **list_kw(omn, omx)))()
-    owner.x = [[raw_init(case["vk"], a) for a in r] for r in case["init"]]
+    init_raw = [[raw_init(case["vk"], a) for a in r] for r in case["init"]]
+    owner.x = [list(r) for r in init_raw]
     rec = Rec()
     hist = []
     for op in case["ops"]:
         tl = owner.x
+        src = tl[0] if len(tl) else None            # an inner trait list to derive ownerless ones from
         rec.attach(tl, rec.on_outer)
         for inner in tl:
-            if type(inner) is not TraitListObject:
-                raise RuntimeError("inner value is not a TraitListObject")
             rec.attach(inner, rec.on_list)
         rec.reset()
         out = "Ok"
         k = op[0]
         try:
             if k == "NAppend":
-                tl.append(raw(op[1]))
+                tl.append(raw(op[1], src))
             elif k == "NExtend":
-                tl.extend([raw(r) for r in op[1]])
+                tl.extend([raw(r, src) for r in op[1]])
             elif k == "NInsert":
-                tl.insert(op[1], raw(op[2]))
+                tl.insert(op[1], raw(op[2], src))
             elif k == "NSetInt":
-                tl[op[1]] = raw(op[2])
+                tl[op[1]] = raw(op[2], src)
             elif k == "NSetSlice":
-                tl[L.sl(op[1])] = [raw(r) for r in op[2]]
+                tl[L.sl(op[1])] = [raw(r, src) for r in op[2]]
             elif k == "NDelInt":
                 del tl[op[1]]
             elif k == "NDelSlice":
@@ -249,7 +308,14 @@ def run_nested(case):
             elif k == "NClear":
                 tl.clear()
             elif k == "NAssign":
-                owner.x = NotAList() if op[1] is None else [raw(r) for r in op[1]]
+                how = op[2] if len(op) > 2 else "plain"
+                if op[1] is None:
+                    owner.x = NotAList()
+                elif how != "plain":
+                    items = [raw(r, src) for r in op[1]]
+                    owner.x = loose_like(owner, how, [list(r) for r in init_raw], fill_list(items))
+                else:
+                    owner.x = [raw(r, src) for r in op[1]]
             elif k == "NInner":
                 if not 0 <= op[1] < len(tl):
                     raise IndexError("no such inner list")
@@ -258,7 +324,7 @@ def run_nested(case):
                 raise ValueError(k)
         except Exception as e:  # noqa
             out = exn(e)
-        hist.append({"out": out, "after": [[atom(v) for v in inner] for inner in owner.x], "nev": rec.n})
+        hist.append({"out": out, "after": [enc_inner(inner) for inner in owner.x], "nev": rec.n})
     return hist
 
 
@@ -267,26 +333,26 @@ def run_ndict(case):
     imn, imx = case["ib"]
     vk = case.get("vk", "VInt")
     owner = cls_for(("ndict", vk, imn, imx), lambda: Dict(Str, List(INNER[vk], **list_kw(imn, imx))))()
-    owner.x = dict((val(k), [raw_init(vk, a) for a in r]) for k, r in case["init"])
+    init_raw = dict((val(k), [raw_init(vk, a) for a in r]) for k, r in case["init"])
+    owner.x = dict((k, list(v)) for k, v in init_raw.items())
     rec = Rec()
     hist = []
     for op in case["ops"]:
         td = owner.x
+        src = next(iter(td.values()), None)
         rec.attach(td, rec.on_dict)
         for inner in td.values():
-            if type(inner) is not TraitListObject:
-                raise RuntimeError("inner value is not a TraitListObject")
             rec.attach(inner, rec.on_list)
         rec.reset()
         out = "Ok"
         k = op[0]
         try:
             if k == "SetItem":
-                td[val(op[1])] = raw(op[2])
+                td[val(op[1])] = raw(op[2], src)
             elif k == "Update":
-                td.update(dict((val(a), raw(r)) for a, r in op[1]))
+                td.update(dict((val(a), raw(r, src)) for a, r in op[1]))
             elif k == "SetDefault":
-                td.setdefault(val(op[1]), raw(op[2]))
+                td.setdefault(val(op[1]), raw(op[2], src))
             elif k == "DelItem":
                 del td[val(op[1])]
             elif k == "Pop":
@@ -294,14 +360,20 @@ def run_ndict(case):
             elif k == "Clear":
                 td.clear()
             elif k == "Assign":
-                owner.x = dict((val(a), raw(r)) for a, r in op[1])
+                how = op[2] if len(op) > 2 and isinstance(op[2], str) else "plain"
+                ps = dict((val(a), raw(r, src)) for a, r in op[1])
+                if how != "plain":
+                    owner.x = loose_like(owner, how, dict((k, list(v)) for k, v in init_raw.items()),
+                                         lambda c: (dict.clear(c), dict.update(c, ps)))
+                else:
+                    owner.x = ps
             elif k == "Inner":
                 L.apply_op(td[val(op[1])], op[2])
             else:
                 raise ValueError(k)
         except Exception as e:  # noqa
             out = exn(e)
-        hist.append({"out": out, "after": [[atom(a), [atom(v) for v in inner]] for a, inner in owner.x.items()],
+        hist.append({"out": out, "after": [[atom(a), enc_inner(inner)] for a, inner in owner.x.items()],
                      "nev": rec.n})     # insertion order
     return hist
 
